@@ -42,6 +42,12 @@ macro_rules! int_type {
             Err(e) => { $s.monitor(&format!("StdParser<{tn}>::parse_with"), e.offset() == 7, "error offset = start offset"); none() }
         };
         $s.check(&format!("StdParser<{tn}>::parse_with"), got2, $exp);
+        // the parse_with! macro (type -> parser dispatch through HasParser)
+        let got3 = match konst::parse_with!(Parser::new($st), $t) {
+            Ok((v, p)) => render(v, $st.len() - p.remainder().len()),
+            Err(_) => none(),
+        };
+        $s.check(&format!("parse_with!(_, {tn})"), got3, $exp);
         // whole-string parse
         let whole_exp = match $exp.get("some") {
             Some(r) if r["consumed"].as_u64().unwrap() as usize == $bytes.len() =>
